@@ -331,4 +331,19 @@ theorem toList_eq_lexList (size : List Nat) : MultiRange.toList size = lexList s
       intro f; simp [drain, MultiRange.next]
     rw [this]
 
+theorem flatMap_singleton_map {α β : Type} (f : α → β) (l : List α) : l.flatMap (fun a => [f a]) = l.map f := by
+  induction l with
+  | nil => rfl
+  | cons a l ih => simp [List.flatMap_cons, ih]
+
+/-- the labelled enumerations (`iproduct!` of the axis keys) are `lexList` -/
+theorem keys_lex (d0 d1 d2 : Nat) :
+    (keys d0).map (fun i => [i]) = lexList [d0] ∧
+    (keysD2 d0 d1).map (fun p => [p.1, p.2]) = lexList [d0, d1] ∧
+    (keysD3 d0 d1 d2).map (fun p => [p.1, p.2.1, p.2.2]) = lexList [d0, d1, d2] := by
+  refine ⟨?_, ?_, ?_⟩
+  · simp [keys, lexList, flatMap_singleton_map]
+  · simp [keysD2, iproduct2, keys, lexList, List.map_flatMap, Function.comp_def, flatMap_singleton_map]
+  · simp [keysD3, iproduct3, keys, lexList, List.map_flatMap, Function.comp_def, flatMap_singleton_map]
+
 end SLV.MArr
